@@ -938,7 +938,7 @@ func (r *Remote) checkForceWithLease(localRef *plumbing.Reference, cmd *packp.Co
 
 	ref, err := storer.ResolveReference(
 		r.s,
-		plumbing.ReferenceName(remotePrefix+strings.ReplaceAll(localRef.Name().String(), "refs/heads/", "")),
+		plumbing.ReferenceName(remotePrefix+strings.TrimPrefix(localRef.Name().String(), "refs/heads/")),
 	)
 	if err != nil {
 		return err
